@@ -144,6 +144,57 @@ check(
     "DESIGN.md sections 3 (E1) and 4 C16", engine="E1 sched",
 )
 
+E6_NOTE = ("Functions are generated pure functions returning (name, canonical bound arguments); carriers: plain functions and "
+           "bound methods (functools.partial and async functions are not generated in this version); mmap_mode and custom store "
+           "backends are not generated; histories are bounded (<= 25 steps, <= 2 functions).")
+
+check(
+    "C02", "exploration",
+    "Model-based histories against one cache directory: generated signatures (all kinds, exhaustive <=4-parameter set) x "
+    "near-colliding argument values x drawn call spellings x ops (call, call_and_shelve().get(), the same call in another "
+    "interpreter with a different PYTHONHASHSEED, clear, reduce_size).  Every function returns its own name and the canonical "
+    "form of its bound non-ignored arguments, so a value served from any other entry is visibly wrong: oracle = equality with "
+    "the plain function's value.",
+    E6_NOTE,
+    "Hypothesis model-based histories; differential oracle vs the undecorated (self-describing) function",
+    "DESIGN.md sections 3 (E6) and 4 C02", engine="E6 memmachine",
+)
+
+check(
+    "C06", "exploration",
+    "Same generated histories as C02, judged against a reference model of the cache (set of present keys): a call the model "
+    "holds must execute the body 0 times (the body logs its own executions, also in the second interpreter), "
+    "check_call_in_cache must equal the model, and no spelling Signature.bind accepts may raise.  Entries leave the model only "
+    "through the history's explicit clear / reduce_size steps.",
+    E6_NOTE,
+    "Hypothesis model-based histories vs reference model (present keys) with execution counter oracle",
+    "DESIGN.md sections 3 (E6) and 4 C06", engine="E6 memmachine",
+)
+
+check(
+    "C12", "exploration",
+    "Generated histories of (define version k of a same-named function | call live version j | swap code object) over 1-3 "
+    "fresh interpreter sessions sharing a cache directory, for module-level, nested, lambda, __main__ and file-less "
+    "functions.  Version k returns (k, a): any value computed by other source code is visibly wrong.  A reference model of "
+    "the stored version decides when unchanged code must be served from cache.",
+    "Each definition is wrapped at definition time; concurrent live processes with different versions and IPython cell "
+    "naming are not generated; <= 3 versions, <= 3 sessions, <= 10 steps per session.",
+    "Hypothesis generated histories across fresh interpreters; self-identifying versions as oracle + reference model for cache retention",
+    "DESIGN.md section 4 C12",
+)
+
+check(
+    "C18", "exploration",
+    "Generated stores (0-12 entries with drawn sizes and access times incl. ties, two cached functions) and limit "
+    "combinations (None / 0 / exact fit / off-by-one / size strings / item counts / age limits between access-time slots); "
+    "the harness takes its own inventory before and after reduce_size and checks the declarative specification: limits met, "
+    "LRU order, minimality (tie-aware), survivors served from cache, evicted recomputed.  memstr_to_bytes is compared with an "
+    "exact parse.",
+    "No concurrent writer; age deadlines are kept >= 400 s from every access time; sizes are entry-directory file sizes.",
+    "Hypothesis generated stores x limits; declarative specification (validity predicate) as oracle",
+    "DESIGN.md section 4 C18",
+)
+
 NOT_YET = "check not built yet in this session (work in progress; see DESIGN.md section 4 for the planned generator and oracle)"
 
 
@@ -161,6 +212,8 @@ def main():
             "add_only": True,
         },
         "engines": [
+            {"name": "E6 memmachine", "path": "vf/engines/memmachine.py", "serves_properties": ["C02", "C06"],
+             "kind_free_text": "reference-model machine for Memory: self-describing generated functions, call spellings, second interpreter"},
             {"name": "E1 sched", "path": "vf/engines/sched.py", "serves_properties": ["C01", "C04", "C09", "C16"],
              "kind_free_text": "controlled-schedule ParallelBackendBase subclass + driver: completion order, sync completions, gates, consumer actions are generated data"},
             {"name": "E4 values", "path": "vf/engines/values.py", "serves_properties": ["C08", "C03", "C14", "C02", "C06"],
